@@ -6,53 +6,66 @@ fn c19_dir(k: u8) -> MainWind {
             4 => MainWind::NE, 5 => MainWind::W, 6 => MainWind::NW, _ => MainWind::N }
 }
 
-/// Checks on the four (cell, weight) pairs returned for a position whose cell / offsets are (h, dx, dy).
-/// Shared by the solver (plane cut) and the native replay. No libm.
-pub fn c19_check(depth: u8, res: &[(u64, f64); 4], h: u64, dx: f64, dy: f64) {
+fn c19_msg(code: u32) -> &'static str {
+  match code {
+    1 => "C19: cell number out of range",
+    2 => "C19: weight outside [0, 1]",
+    3 => "C19: a returned cell is neither the cell of the position nor one of its neighbours",
+    4 => "C19: the cell containing the position is not among the four cells",
+    5 => "C19: weights do not sum to 1",
+    6 => "C19: at the centre of a cell the whole weight is not on that cell",
+    7 => "C19: next to a three-cell point the missing corner does not contribute weight 0",
+    _ => "C19: the weighted mean of the four centres is not the position",
+  }
+}
+
+/// Checks on the four (cell, weight) pairs returned for a position whose cell / offsets are (h, dx, dy). Returns 0 or the code of
+/// the first clause that fails (one code instead of ~40 separate assertions: a single solver query per harness). No libm.
+pub fn c19_eval(depth: u8, res: &[(u64, f64); 4], h: u64, dx: f64, dy: f64) -> u32 {
   let nh = spec_n_hash(depth);
   let layer = hp::nested::get_or_create(depth);
   let map = layer.neighbours(h, true);
+  let mut err = 0u32;
   let mut sum = 0.0f64;
   let mut has_h = false;
   let mut k = 0usize;
   while k < 4 {
     let (c, w) = res[k];
-    assert!(c < nh, "C19: cell number out of range");
-    assert!(w >= 0.0 && w <= 1.0, "C19: weight outside [0, 1]");
+    if !(c < nh) && err == 0 { err = 1; }
+    if !(w >= 0.0 && w <= 1.0) && err == 0 { err = 2; }
     sum += w;
     if c == h { has_h = true; }
-    // the cell is h or one of its neighbours
     let mut found = c == h;
     let mut d = 0u8;
     while d < 8 {
       if let Some(v) = map.get(c19_dir(d)) { if *v == c { found = true; } }
       d += 1;
     }
-    assert!(found, "C19: a returned cell is neither the cell of the position nor one of its neighbours");
+    if !found && err == 0 { err = 3; }
     k += 1;
   }
-  assert!(has_h, "C19: the cell containing the position is not among the four cells");
-  assert!(sum >= 1.0 - 1e-12 && sum <= 1.0 + 1e-12, "C19: weights do not sum to 1");
+  if !has_h && err == 0 { err = 4; }
+  if !(sum >= 1.0 - 1e-12 && sum <= 1.0 + 1e-12) && err == 0 { err = 5; }
   if dx == 0.5 && dy == 0.5 {
     let mut wh = 0.0f64;
     k = 0;
     while k < 4 { if res[k].0 == h { wh += res[k].1; } k += 1; }
-    assert!(wh == 1.0, "C19: at the centre of a cell the whole weight is not on that cell");
+    if wh != 1.0 && err == 0 { err = 6; }
   }
   // missing corner (next to a three-cell point): the quadrant towards a missing S / E / N / W neighbour has a zero-weight filler
   let xq = dx > 0.5;
   let yq = dy > 0.5;
   let corner = if !xq && !yq { 0u8 } else if xq && !yq { 2 } else if !xq && yq { 5 } else { 7 };
-  if map.get(c19_dir(corner)).is_none() {
+  let corner_missing = map.get(c19_dir(corner)).is_none();
+  if corner_missing {
     let mut n_zero_h = 0u32;
     k = 0;
     while k < 4 { if res[k].0 == h && res[k].1 == 0.0 { n_zero_h += 1; } k += 1; }
-    assert!(n_zero_h >= 1, "C19: next to a three-cell point the missing corner does not contribute weight 0");
+    if n_zero_h < 1 && err == 0 { err = 7; }
   }
   // barycentre when the four cells are in one base cell: weighted mean of the centres (cell grid units) = the position
   let b0 = res[0].0 >> (2 * depth as u32);
-  if (res[1].0 >> (2 * depth as u32)) == b0 && (res[2].0 >> (2 * depth as u32)) == b0 && (res[3].0 >> (2 * depth as u32)) == b0
-     && map.get(c19_dir(corner)).is_some() {
+  if err == 0 && !corner_missing && (res[1].0 >> (2 * depth as u32)) == b0 && (res[2].0 >> (2 * depth as u32)) == b0 && (res[3].0 >> (2 * depth as u32)) == b0 {
     let (_, hi, hj) = spec_decode(depth, h);
     let mut mi = 0.0f64;
     let mut mj = 0.0f64;
@@ -65,8 +78,16 @@ pub fn c19_check(depth: u8, res: &[(u64, f64); 4], h: u64, dx: f64, dy: f64) {
     }
     let (pi, pj) = (hi as f64 + dx, hj as f64 + dy);
     let n = (1u64 << depth) as f64;
-    assert!((mi - pi) <= 1e-9 * n && (pi - mi) <= 1e-9 * n && (mj - pj) <= 1e-9 * n && (pj - mj) <= 1e-9 * n, "C19: the weighted mean of the four centres is not the position");
+    if !((mi - pi) <= 1e-9 * n && (pi - mi) <= 1e-9 * n && (mj - pj) <= 1e-9 * n && (pj - mj) <= 1e-9 * n) { err = 8; }
   }
+  err
+}
+
+pub fn c19_check(depth: u8, res: &[(u64, f64); 4], h: u64, dx: f64, dy: f64) {
+  let err = c19_eval(depth, res, h, dx, dy);
+  #[cfg(not(kani))]
+  { if err != 0 { panic!("{}", c19_msg(err)); } }
+  assert!(err == 0, "C19: bilinear interpolation violates one of its clauses (weights in [0,1] summing to 1, right cells, centre, missing corner, barycentre)");
 }
 
 #[cfg(not(kani))]
